@@ -153,9 +153,9 @@ inductive PayoffT where
   | swaption (deltas L0 : List Rat) (K : Rat) (payer : Bool)
   deriving DecidableEq, Repr
 
-/-- `payoff(underlying)` given the barrier flag the payoff object holds.  Scalar payoffs written with `if` are defined on
-one-entry arrays only (a longer array makes the `if` raise); the `np.maximum` ones broadcast. -/
-def evalPay (P : PayoffT) (flag : Bool) (v : Val) : Val :=
+/-- `payoff(underlying)` for the payoffs that hold no state.  Scalar payoffs written with `if` are defined on one-entry
+arrays only (a longer array makes the `if` raise); the `np.maximum` ones broadcast. -/
+def evalStateless (P : PayoffT) (v : Val) : Val :=
   match P, v with
   | _, .err => .err
   | .fixedCoupon c, _ => .vec [c]
@@ -168,7 +168,6 @@ def evalPay (P : PayoffT) (flag : Bool) (v : Val) : Val :=
   | .digital c K, .vec [u] => .vec [digital c u K]
   | .digital c _, .time none => .vec [if c then 1 else 0]
   | .digital c K, .time (some t) => .vec [digital c t K]
-  | .barrier c K _ isIn _, .vec [u] => .vec [barrierEval c K isIn flag u]
   | .rainbow w K c, .vec l => .vec [rainbow w K c l]
   | .cds R s T r d0 d1, .time t => .vec [cds R s T r d0 d1 t]
   | .bond d L0, .vec l => .vec [bond d L0 l]
@@ -176,6 +175,15 @@ def evalPay (P : PayoffT) (flag : Bool) (v : Val) : Val :=
   | .ratchet d g m s i f, .vec l => .vec [ratchet d g m s i f l]
   | .swaption d L0 K p, .vec l => .vec [swaption d L0 K p l]
   | _, _ => .err
+
+/-- `payoff(underlying)` given the barrier flag the payoff object holds (only `Barrier` reads it) -/
+def evalPay (P : PayoffT) (flag : Bool) (v : Val) : Val :=
+  match P with
+  | .barrier c K _ isIn _ =>
+    match v with
+    | .vec [u] => .vec [barrierEval c K isIn flag u]
+    | _ => .err
+  | P => evalStateless P v
 
 /-- `notional * value` -/
 def scale (n : Rat) : Val → Val
@@ -365,32 +373,35 @@ def processRaises (P : PayoffT) (p : Path) : Bool :=
   | .barrier .. => !p.flat
   | _ => false
 
+def outVal : Out → Val
+  | .val v => v
+  | .unit => .err
+
+/-- `Product.underlying_value`: the underlying first (if it raises, `process` is not reached), then `payoff.process` -/
+def stepUv (E : ExpLog) (T : Terms) (s : Obj) (p : Path) : Obj × Out :=
+  let v := undValue E s.bind T.und p
+  if v = .err then (s, .val .err)
+  else if processRaises T.pay p then ({ s with flag := false }, .val .err)
+  else ({ s with flag := processFlag T.pay p s.flag }, .val v)
+
 def step (E : ExpLog) (T : Terms) (s : Obj) : Op → Obj × Out
   | .update r => ({ s with bind := r }, .unit)
-  | .uv p =>
-    match undValue E s.bind T.und p with
-    | .err => (s, .val .err)                       -- the underlying raised: `process` is not reached
-    | v =>
-      if processRaises T.pay p then ({ s with flag := false }, .val .err)
-      else ({ s with flag := processFlag T.pay p s.flag }, .val v)
+  | .uv p => stepUv E T s p
   | .call v => (s, .val (scale T.notional (evalPay T.pay s.flag v)))
 
 def run (E : ExpLog) (T : Terms) (ops : List Op) (s : Obj) : Obj := ops.foldl (fun s o => (step E T s o).1) s
 
 /-- what the engine does with one path: `u = product.underlying_value(times, path, jump_path); product(u)` -/
 def valueOn (E : ExpLog) (T : Terms) (s : Obj) (p : Path) : Val :=
-  match step E T s (.uv p) with
-  | (_, .val .err) => .err
-  | (s1, .val u) => match (step E T s1 (.call u)).2 with | .val v => v | .unit => .err
-  | (_, .unit) => .err
+  let r := step E T s (.uv p)
+  if outVal r.2 = .err then .err else outVal (step E T r.1 (.call (outVal r.2))).2
 
 /-- the pure function of (path, terms, representation) the property speaks of -/
 def pureValue (E : ExpLog) (T : Terms) (rep : Rep) (p : Path) : Val :=
-  match undValue E rep T.und p with
-  | .err => .err
-  | u =>
-    if processRaises T.pay p then .err
-    else scale T.notional (evalPay T.pay (processFlag T.pay p false) u)
+  let u := undValue E rep T.und p
+  if u = .err then .err
+  else if processRaises T.pay p then .err
+  else scale T.notional (evalPay T.pay (processFlag T.pay p false) u)
 
 /-- representation set by the last `update` of a history (the constructor leaves the identity implementation) -/
 def lastRep (r0 : Rep) : List Op → Rep
@@ -408,23 +419,22 @@ def processFlagOld (P : PayoffT) (p : Path) (old : Bool) : Bool :=
 
 /-- before b43b997: `update(IDENDITY)` did nothing; before dcab1cf: `Asian.value` replaced the path by the terminal
 spot and iterated over it (TypeError for the 1-d path of a one-dimensional process) -/
+def stepUvOld (E : ExpLog) (T : Terms) (s : Obj) (p : Path) : Obj × Out :=
+  let v := if T.und = .asian ∧ p.flat then Val.err else undValue E s.bind T.und p
+  if v = .err then (s, .val .err)
+  else if processRaises T.pay p then (s, .val .err)
+  else ({ s with flag := processFlagOld T.pay p s.flag }, .val v)
+
 def stepOld (E : ExpLog) (T : Terms) (s : Obj) : Op → Obj × Out
   | .update r => ((if r = .log then { s with bind := .log } else s), .unit)
-  | .uv p =>
-    match (if T.und = .asian ∧ p.flat then Val.err else undValue E s.bind T.und p) with
-    | .err => (s, .val .err)
-    | v =>
-      if processRaises T.pay p then (s, .val .err)
-      else ({ s with flag := processFlagOld T.pay p s.flag }, .val v)
+  | .uv p => stepUvOld E T s p
   | .call v => (s, .val (scale T.notional (evalPay T.pay s.flag v)))
 
 def runOld (E : ExpLog) (T : Terms) (ops : List Op) (s : Obj) : Obj := ops.foldl (fun s o => (stepOld E T s o).1) s
 
 def valueOnOld (E : ExpLog) (T : Terms) (s : Obj) (p : Path) : Val :=
-  match stepOld E T s (.uv p) with
-  | (_, .val .err) => .err
-  | (s1, .val u) => match (stepOld E T s1 (.call u)).2 with | .val v => v | .unit => .err
-  | (_, .unit) => .err
+  let r := stepOld E T s (.uv p)
+  if outVal r.2 = .err then .err else outVal (stepOld E T r.1 (.call (outVal r.2))).2
 
 /-- a rational strictly increasing bijection ℚ → ℚ_{>0} with its inverse: shows that the hypotheses made of the
 abstract pair are satisfiable, and serves the literal negation witnesses -/
